@@ -1,6 +1,8 @@
 /- Kernel obligation: entries 0x1000..0x1fff of the live float16->code table `Gen.encP3` pass `encChk`
-   (one sixteenth of the table per file so that lake checks them in parallel; assembled in Proofs/C11_Tables.lean). -/
-import BitstringModel.Model.C11
+   (one sixteenth of the table per file so that lake checks them in parallel; depends only on the specification and on
+   this table; assembled in Proofs/C11_Tables.lean). -/
+import BitstringModel.Model.C11_Spec
+import BitstringModel.Gen.LutEncP3
 namespace BM.C11
-theorem encChunk_P3_01 : encChunkOk .p3 1 = true := by decide +kernel
+theorem encChunk_P3_01 : encChunkOkT Gen.encP3 Fmt.p3 .saturate 1 = true := by decide +kernel
 end BM.C11
